@@ -75,8 +75,8 @@ def strategy(tier):
     if tier == "quick":
         return _with_large(gen.rec_case(max_obj=6, max_sp=4, min_obj=1, costs="coherent", labelled=True, max_fam=5, allow_inconsistent=False))
     if tier == "thorough":
-        return gen.rec_case(max_obj=8, max_sp=6, min_obj=1, costs="coherent", labelled=True, max_fam=5,
-                            allow_inconsistent=False)
+        return _with_large(gen.rec_case(max_obj=8, max_sp=6, min_obj=1, costs="coherent", labelled=True, max_fam=5,
+                                        allow_inconsistent=False))
     return gen.rec_case(max_obj=6, max_sp=4, min_obj=1, costs="coherent", labelled=True, max_fam=5,
                         allow_inconsistent=False)
 
